@@ -699,6 +699,7 @@ func (ex *Exec) builtin(name string, args []Value, c *ssa.CallCommon) Value {
 		if ch == nil {
 			ex.goPanic("close of nil channel")
 		}
+		ex.yieldPoint(nil, nil)
 		if ch.Closed {
 			ex.goPanic("close of closed channel")
 		}
